@@ -9,12 +9,13 @@ def cli(args, cwd):
     return p.returncode, p.stdout, p.stderr
 
 
-def gen_stack(r, ids, groups, k):
+def gen_stack(r, ids, groups, k, opts=()):
     import yaml
 
     if k == 0:
         return []
     files = []
+    focus = []
     for i in range(r.randint(1, 2)):
         rule = {}
         for _ in range(r.randint(1, 6)):
@@ -35,6 +36,13 @@ def gen_stack(r, ids, groups, k):
             cfg["rule"].setdefault(r.choice(ids), {})["severity"] = "Guideline"
         elif extra < 0.3:
             cfg["skip_phase"] = [r.randint(2, 7)]
+        elif extra < 0.7 and opts:
+            # a rule switched off with non-default options in the rule section and switched on again for one file
+            rid, o = r.choice(opts)
+            cfg["rule"][rid] = dict(o, disable=True)
+            cfg["file_rules"] = [{"f0.vhd": {"rule": {rid: {"disable": False}}}}]
+            cfg["__focus__"] = rid
+        focus.append(cfg.pop("__focus__", None))
         files.append(yaml.safe_dump(cfg))
     return files
 
@@ -112,7 +120,12 @@ def run(tier):
     ck.theorems(br, names, discharged, assumptions, broken)
     for b in broken:
         ck.broken_tie(b[:80], b)
+    import re, optharvest
+
     r = vlib.rng("c17")
+    rtab = ruletable.by_id()
+    oh = optharvest.load()
+    opts = [(rid, o) for rid, sets in sorted(oh["per_rule"].items()) for o in sets if [f for f in optharvest.fixtures_for(rid, rtab) if f.endswith("test_input.vhd")]]
     rt = [x for x in ruletable.load() if not x["deprecated"] and x["phase"]]
     ids = [x["id"] for x in rt]
     groups = sorted({g for x in rt for g in x["groups"]})
@@ -123,7 +136,14 @@ def run(tier):
     jobs = []
     for k in range(ncases):
         style = [None, "jcl", "indent_only"][k % 3]
-        jobs.append((k, style, gen_stack(r, ids, groups, k // 3), r.sample(pool, nfiles), tmp))
+        stack = gen_stack(r, ids, groups, k // 3, opts)
+        srcs = r.sample(pool, nfiles)
+        # when a stack re-enables a rule for f0.vhd, analyse that rule's own fixture as f0.vhd
+        for t in stack:
+            m = re.search(r"file_rules:\n- f0.vhd:\n    rule:\n      (\w+):", t)
+            if m and optharvest.fixtures_for(m.group(1), rtab):
+                srcs[0] = [f for f in optharvest.fixtures_for(m.group(1), rtab) if f.endswith("test_input.vhd")][0]
+        jobs.append((k, style, stack, srcs, tmp))
     try:
         with Pool(vlib.NCPU) as p:
             res = p.map(_case, jobs, chunksize=1)
